@@ -7,6 +7,7 @@ def dispatch (line : String) : String :=
   | "C20b" :: args => VtModel.Cache.handleBudget args
   | "C07" :: args => VtModel.Path.handle args
   | "C14" :: args => VtModel.Sched.handle args
+  | "C14s" :: args => VtModel.Sched.handleS args
   | "C13" :: args => VtModel.FileOffset.handle args
   | "C12" :: args => VtModel.Crash.handle args
   | "C15" :: args => VtModel.BBoxProto.handle args
@@ -17,6 +18,7 @@ def dispatch (line : String) : String :=
   | "C17u" :: args => VtModel.TileJson.handleU args
   | "C17m" :: args => VtModel.TileJson.handleM args
   | "C17n" :: args => VtModel.Ndjson.handleN args
+  | "C17x" :: args => VtModel.TileJson.handleX args
   | "C18" :: args => VtModel.Vpl.handle args
   | "C18r" :: args => VtModel.Vpl.handleRender args
   | "C06" :: args => VtModel.Converter.handle args
